@@ -930,7 +930,12 @@ func c13RunH1(peer *c13Peer, sc *c13Scenario, cfg *c13DumpCfg, viaSet bool, time
 	out.res = c13ResultOf(resp, err)
 	if cfg != nil && cfg.eachReq > 0 && resp != nil {
 		// the request's own buffer, read back the documented way; one write event for the oracle
-		out.log.events = append(out.log.events, c13Event{30, resp.Dump()})
+		// under the log's lock: an async client-level dumper may be writing to the same log
+		// from its Start goroutine right now (an unlocked append here once lost this event)
+		d := resp.Dump()
+		out.log.mu.Lock()
+		out.log.events = append(out.log.events, c13Event{30, d})
+		out.log.mu.Unlock()
 	}
 	out.cl = cl // flushed and stopped at judge time: the write loop may still be dumping its last piece
 	cl.CloseIdleConnections()
